@@ -64,6 +64,7 @@ def showPerl : Except PerlBrace.PErr PerlBrace.Result → String
 def handle (op : String) (args : List String) : String :=
   match op, args with
   | "parse", [h] => showResult (PyBrace.parse (Driver.unhexChars h))
+  | "parse-cfg", [m, d, h] => showResult (PyBrace.parseWith { ssizeMax := m.toNat!, digitLimit := d.toNat! } (Driver.unhexChars h))
   | "spec", [h] => showSpec (PyBrace.scanSpec (Driver.unhexChars h))
   | _, _ => "bad-op"
 
